@@ -227,7 +227,9 @@ func miscSurface(w *core.Worker, rr *core.Rand, in []byte) {
 		return ""
 	})
 	guardFn(w, "URIParamResolve", in, func() string { sipsp.URIParamResolve(in); return "" })
-	for _, dl := range []int{0, 3, 4, 16} {
+	// destination sizes: none, too small for IPv4, exact IPv4, exact IPv6, and two drawn from 1..20
+	// (a destination between the two address sizes must be left alone, not half-filled)
+	for _, dl := range []int{0, 3, 4, 16, 1 + rr.Intn(20), 8 + rr.Intn(8)} {
 		dst := make([]byte, dl)
 		var dnil []byte
 		if dl == 0 {
